@@ -71,6 +71,14 @@ def time_env(tm_now):
     def from_millis(ex, st, callee, args, fn):
         return Struct([args[0] * 10 ** 6])
 
+    def try_from_secs_f64(ex, st, callee, args, fn):
+        # std: Ok(duration rounded to the nearest nanosecond) for 0 <= x < 2^64 seconds, Err otherwise (negative, too large, NaN)
+        x = ex.to_lin(args[0])
+        n = ex.fresh('dur_ns')
+        nr = z3.ToReal(n)
+        ex.side.append(z3.Implies(z3.And(x >= 0, x < 2 ** 64), z3.And(nr >= x * NS - z3.RealVal('1/2'), nr <= x * NS + z3.RealVal('1/2'), n >= 0)))
+        return Enum(z3.If(z3.And(x >= 0, x < 2 ** 64), z3.IntVal(0), z3.IntVal(1)), {'Ok': Struct([Struct([n])]), 'Err': Struct([Opaque('TryFromFloatSecsError')])})
+
     def dur_cmp(ex, st, callee, args, fn):
         a = ex.deref(st, args[0]) if isinstance(args[0], Ref) else args[0]
         b = ex.deref(st, args[1]) if isinstance(args[1], Ref) else args[1]
@@ -84,12 +92,20 @@ def time_env(tm_now):
             raise EngineError('ChronyFloat conversion of %r' % (v,))
         return v
     return [(r'^<ChronyFloat as Into<f64>>::into$|^<f64 as From<ChronyFloat>>::from$', chrony_float),
-            (r'(^|::)SystemTime::elapsed$', elapsed), (r'(^|::)Duration::from_secs$', from_secs), (r'(^|::)Duration::from_millis$', from_millis),
+            (r'(^|::)SystemTime::elapsed$', elapsed), (r'(^|::)Duration::from_secs$', from_secs), (r'(^|::)Duration::try_from_secs_f64$', try_from_secs_f64), (r'(^|::)Duration::from_millis$', from_millis),
             (r'^<Duration as PartialOrd>::(gt|ge|lt|le)$|^<Duration as PartialEq>::(eq|ne)$', dur_cmp)]
+
+
+DUR_MAX_NS = (2 ** 64 - 1) * NS + 999_999_999
+
+
+def time_consts():
+    return [(r'(^|::)Duration::MAX$', Struct([z3.IntVal(DUR_MAX_NS)])), (r'(^|::)Duration::ZERO$', Struct([z3.IntVal(0)]))]
 
 
 def run_extract(prog, tm):
     ex = Exec(prog, env=time_env(tm.now_ns))
+    ex.const_hooks = time_consts()
     fn = prog.find1('extract_bound_from_tracking', crate='clock_bound_d')
     outs = ex.run(fn, [tm.value], State())
     return ex, fn, outs
@@ -284,6 +300,8 @@ def check_c10(tier, seed):
     age_s = z3.ToReal(age) / NS
     exp = z3.If(z3.Or(tm.now_ns < tm.ref_ns, tm.leap > 3), z3.IntVal(0),
                 z3.If(tm.leap == 3, z3.IntVal(2), z3.If(age_s > 8 * tm.iv, z3.IntVal(2), z3.IntVal(1))))
+    # ages and thresholds are compared at the 1 ns resolution of the representation: within 1 ns of the threshold either class is accepted
+    near = z3.And(tm.leap <= 2, tm.now_ns >= tm.ref_ns, z3.ToReal(age) - 8 * tm.iv * NS <= 1, z3.ToReal(age) - 8 * tm.iv * NS >= -1)
     rp = common.Replay('debug'); rp2 = common.Replay('release')
     stats = [0, 0]
 
@@ -297,7 +315,8 @@ def check_c10(tier, seed):
             if 'status' not in nat:
                 continue
             want = c10_oracle(nat, leap)
-            if nat['status'] != want:
+            near_thr = leap <= 2 and nat['age_ns'] >= 0 and abs(nat['age_ns'] - 8 * nat['iv'] * NS) <= 1 and nat['status'] in (1, 2)
+            if nat['status'] != want and not near_thr:
                 stats[1] += 1
                 thr = 8 * nat['iv']
                 sub = nat['status'] == 2 and want == 1 and Fraction(nat['age_ns'], NS) > int(thr) and Fraction(nat['age_ns'], NS) <= thr
@@ -312,7 +331,7 @@ def check_c10(tier, seed):
         k1, k2 = z3.Int('hint_k1'), z3.Int('hint_k2')
         hints = [[tm.iv * 16 == z3.ToReal(k1), tm.iv <= 4096, (tm.now_ns - tm.ref_ns) == k2 * 1000000, k2 >= 0, k2 < 10 ** 9],
                  [tm.iv * 1024 == z3.ToReal(k1), tm.iv <= 4096, (tm.now_ns - tm.ref_ns) < 10 ** 15, tm.now_ns >= tm.ref_ns]]
-        pr.prove_cegar('path%d/status_is_the_documented_class' % i, pc, stt == exp, confirm, lambda m: [], hints=hints)
+        pr.prove_cegar('path%d/status_is_the_documented_class' % i, pc, z3.Or(stt == exp, z3.And(near, z3.Or(stt == 1, stt == 2))), confirm, lambda m: [], hints=hints)
         pr.prove('path%d/status_code_valid' % i, pc, z3.And(stt >= 0, stt <= 2))
     # the leap-status decoding alone, for all 65536 values
     fromu16 = prog.find1('from', self_ty='ChronyClockStatus', crate='clock_bound_d')
